@@ -1,1 +1,405 @@
-"""rules for c01 (under construction)"""
+"""C01 - a converged run returns the fine collocation solution (structural clauses, DESIGN.md §4 C01)."""
+
+import ast
+import re
+
+from ..cfg import FuncCFG, walk_no_nested
+from ..model import AnalysisError, ClassInfo
+from ..norm import Normalizer, to_affine, Affine, bool_nf, nnf, guards_nnf
+from ..runner import rule
+from .. import sweepers as sw
+
+NONMPI = 'pySDC/implementations/controller_classes/controller_nonMPI.py'
+MPI = 'pySDC/implementations/controller_classes/controller_MPI.py'
+
+# matrices that play the QDelta role but are not assigned from get_Qdelta_* directly (read off __get_Qd by hand)
+EXTRA_SLOTS = {'verlet': {'QT': 'implicit', 'Qx': 'explicit'}, 'boris_2nd_order': {'Sx': 'explicit'}}
+# solver method -> f components it inverts ('' = the unsplit f)
+SOLVER_COMPONENT = {'P.solve_system': {'', 'impl', 'diff[:]'}, 'P.solve_system_1': {'comp1'}, 'P.solve_system_2': {'comp2'}}
+
+_MAT = re.compile(r'^self\.(\w+)\[(.+), (.+)\]$')
+_F = re.compile(r'^L\.f\[(.+?)\](?:\.(.+))?$')
+
+
+def _aff(s):
+    return to_affine(ast.parse(s, mode='eval').body)
+
+
+def _col_range(term_factors, loops):
+    """(matrix, row affine, col affine, f component, [col_lo, col_hi] affines) of a dt*MAT[row,col]*f[col] term"""
+    mats = [(_MAT.match(f), f) for f in term_factors if _MAT.match(f)]
+    return mats
+
+
+def _qd_terms(N, slots):
+    """all '+=' terms that contain exactly one QDelta-slot factor -> list of dicts"""
+    out = []
+    for c in N.contribs:
+        if c.op != '+=' or c.terms is None:
+            continue
+        for sign, fac in c.terms:
+            ms = [_MAT.match(f) for f in fac]
+            ms = [m for m in ms if m and m.group(1) in slots]
+            if not ms:
+                continue
+            if len(ms) != 1:
+                raise AnalysisError(f'term with several QDelta factors: {fac}')
+            m = ms[0]
+            row, col = _aff(m.group(2)), _aff(m.group(3))
+            fs = [(_F.match(f), f) for f in fac]
+            fs = [(x, f) for x, f in fs if x]
+            rest = sorted(f for f in fac if f != m.group(0) and not _F.match(f))
+            # column range: substitute the innermost loop whose variable occurs in col
+            lo = hi = col
+            for l in reversed(c.loops):
+                if l.kind == 'range' and col is not None and l.var in col.coeffs:
+                    lo = col.subst(l.var, l.lo)
+                    hi = col.subst(l.var, l.hi)
+                    break
+            out.append(dict(contrib=c, sign=sign, mat=m.group(1), row=row, col=col, fidx=[_aff(x.group(1)) for x, _ in fs], comp=[(x.group(2) or '') for x, _ in fs],
+                            fraw=[f for _, f in fs], rest=rest, lo=lo, hi=hi, target=c.target, text=('+' if sign > 0 else '-') + '·'.join(fac) + ' for ' + ', '.join(map(repr, c.loops))))
+    return out
+
+
+@rule('C01', 'C01.R1', 'QDelta cancellation: subtracted and added-back dt*QD*f terms agree (matrix, component, index coupling); solver factor is the diagonal of the matrix of the inverted component', floor=40)
+def r1(ctx, R):
+    repo = ctx.repo
+    for rel, cn in sw.QD_SERIAL + sw.QD_DAE + [sw.SECOND_ORDER[0]]:
+        ci = repo.cls(rel, cn)
+        slots = dict(sw.qd_slots(repo, ci))
+        slots.update(EXTRA_SLOTS.get(cn, {}))
+        owner, fn, sig = sw.method_sig(repo, ci, 'update_nodes')
+        w = sw.where(owner, fn)
+        R.fn(w)
+        N = sig.N
+        terms = _qd_terms(N, slots)
+        if not terms:
+            raise AnalysisError(f'{w}: no dt*QD*f term found for slots {sorted(slots)}')
+        node = Affine(0, {'i1': 1})
+        used = sorted({t['mat'] for t in terms})
+        for mat in used:
+            neg = [t for t in terms if t['mat'] == mat and t['sign'] < 0]
+            pos = [t for t in terms if t['mat'] == mat and t['sign'] > 0]
+            key = f'{owner.name}.update_nodes :: ({mat}'
+            # multi_implicit accumulates the second matrix positively in an auxiliary list that enters the rhs with '-'
+            if not neg and cn == 'multi_implicit':
+                aux = [t for t in pos if t['hi'] != node - Affine(1) and not t['target'].startswith('L.')]
+                auxnames = {re.split(r'[\[.]', t['target'])[0] for t in aux}
+                sub = [c for c in N.contribs if c.op == '=' and c.terms and any(s < 0 and len(f) == 1 and re.split(r'[\[.]', f[0])[0] in auxnames for s, f in c.terms)]
+                if aux and sub:
+                    neg, pos = aux, [t for t in pos if t not in aux]
+            comp = sorted({c for t in neg + pos for c in t['comp']})
+            key += f', f.{comp[0]})' if comp and comp[0] else ', f)'
+            # (a) index coupling on every term: row is the node, f index equals the matrix column
+            for t in neg + pos:
+                ok = t['row'] == node and len(t['fidx']) == 1 and t['fidx'][0] == t['col']
+                if not ok:
+                    R.bad(key + ' index coupling', w, 'MAT[n, j] * f[j] with n the node of the target', t['text'])
+                    break
+            else:
+                R.ok(key + ' index coupling', w, found=f'{len(neg) + len(pos)} term(s): row = node, f index = column')
+            # (b) same kernel on both sides: other factors (dt powers) and f component
+            kn = sorted({(tuple(t['rest']), tuple(t['comp'])) for t in neg})
+            kp = sorted({(tuple(t['rest']), tuple(t['comp'])) for t in pos})
+            diag_only_ok = False
+            if cn == 'verlet' and mat == 'QT':
+                pass
+            R.check(kn == kp and len(kn) == 1, key + ' subtracted kernel == added-back kernel', w, 'one kernel (dt-power, component), identical on both sides', {'subtracted': kn, 'added': kp})
+            # (c) ranges: subtracted covers lo..(M | n), added back is lo..n-1 (strictly lower)
+            okr = True
+            detail = []
+            for t in neg:
+                fine = t['hi'] in (Affine(0, {'M': 1}), node) and t['lo'] in (Affine(0), Affine(1))
+                okr &= fine
+                detail.append(f'sub {t["lo"]}..{t["hi"]}')
+            strict = [t for t in pos if t['hi'] == node - Affine(1)]
+            diag = [t for t in pos if t['col'] == node]
+            other = [t for t in pos if t not in strict and t not in diag]
+            for t in strict:
+                okr &= bool(neg) and t['lo'] == neg[0]['lo']
+                detail.append(f'add {t["lo"]}..{t["hi"]}')
+            if diag:
+                # verlet applies the diagonal of QT explicitly with the NEW f[n] (velocity-Verlet form): table entry
+                allowed = cn == 'verlet' and mat == 'QT'
+                okr &= allowed
+                detail.append('diagonal term with f[n]' + (' (verlet: explicit diagonal with the new f, exception)' if allowed else ''))
+            okr &= not other and len(strict) >= 1
+            R.check(okr, key + ' ranges: full/lower row subtracted, strictly lower part added back', w, 'sub lo..M|n ; add lo..n-1', detail + [t['text'] for t in other])
+        # (d) solver factor
+        for c in N.contribs:
+            if c.call and c.call[0] in SOLVER_COMPONENT and owner.name not in ('FullyImplicitDAE', 'SemiImplicitDAE'):
+                fac = c.call[1][1] if len(c.call[1]) > 1 else ''
+                ft = N._terms(ast.parse(fac, mode='eval').body)
+                m = [(_MAT.match(x), x) for s, f in ft for x in f]
+                m = [x for x, _ in m if x]
+                comps = SOLVER_COMPONENT[c.call[0]]
+                paired = sorted({t['mat'] for t in terms if set(t['comp']) & comps})
+                ok = len(ft) == 1 and ft[0][0] == 1 and len(m) == 1 and sorted(ft[0][1]) == sorted(['L.dt', m[0].group(0)]) and _aff(m[0].group(2)) == node and _aff(m[0].group(3)) == node and [m[0].group(1)] == paired
+                R.check(ok, f'{owner.name}.update_nodes :: factor of {c.call[0]}', w, f'dt * {paired}[n, n] (the matrix paired with the component {sorted(comps)} this solver inverts)', fac)
+            elif c.call and c.call[0] == 'P.solve_system' and owner.name in ('FullyImplicitDAE', 'SemiImplicitDAE'):
+                fac = c.call[1][2] if len(c.call[1]) > 2 else ''
+                R.check(fac == 'L.dt * self.QI[i1, i1]', f'{owner.name}.update_nodes :: factor of P.solve_system', w, 'L.dt * self.QI[n, n]', fac)
+    # node-parallel sweepers: only the diagonal term exists
+    for rel, cn in sw.QD_MPI:
+        ci = repo.cls(rel, cn)
+        slots = sw.qd_slots(repo, ci)
+        owner, fn, sig = sw.method_sig(repo, ci, 'update_nodes')
+        w = sw.where(owner, fn)
+        R.fn(w)
+        terms = _qd_terms(sig.N, slots)
+        r1_ = Affine(1, {'self.rank': 1})
+        ok = len(terms) == 1 and terms[0]['sign'] < 0 and terms[0]['row'] == r1_ and terms[0]['col'] == r1_ and terms[0]['fidx'] == [r1_] and terms[0]['rest'] == ['L.dt']
+        R.check(ok, f'{cn}.update_nodes :: only -dt*QI[r+1,r+1]*f[r+1] is subtracted (diagonal preconditioner)', w, 'one diagonal term', [t['text'] for t in terms])
+        sol = [c for c in sig.N.contribs if c.call and c.call[0] == 'P.solve_system']
+        R.check(len(sol) == 1 and sol[0].call[1][1] == 'L.dt * self.QI[self.rank + 1, self.rank + 1]', f'{cn}.update_nodes :: factor of P.solve_system', w, 'L.dt * self.QI[r+1, r+1]', [c.call[1][1] for c in sol])
+
+
+def _tau_terms(N, idx_pat):
+    out = []
+    for c in N.contribs:
+        if c.op == '+=' and c.terms:
+            for s, f in c.terms:
+                if len(f) == 1 and re.fullmatch(idx_pat, f[0]):
+                    out.append((c, s, f[0]))
+    return out
+
+
+@rule('C01', 'C01.R2', 'tau is added (once, +, under its is-not-None guard) in sweep, residual and end point of every multi-level capable sweeper', floor=26)
+def r2(ctx, R):
+    repo = ctx.repo
+    # sweeps
+    fam = sw.QD_SERIAL + sw.QD_MPI + [sw.SECOND_ORDER[0]]
+    for rel, cn in fam:
+        ci = repo.cls(rel, cn)
+        owner, fn, sig = sw.method_sig(repo, ci, 'update_nodes')
+        w = sw.where(owner, fn)
+        R.fn(w)
+        idx = r'self\.rank' if (rel, cn) in sw.QD_MPI else r'i1 - 1'
+        tt = _tau_terms(sig.N, rf'L\.tau\[{idx}\]')
+        ok = len(tt) == 1 and tt[0][1] == 1 and any(re.fullmatch(rf'L\.tau\[{idx}\] is not None', g) for g in tt[0][0].guards)
+        R.check(ok, f'{owner.name}.update_nodes :: + tau[n] if tau[n] is not None', w, 'exactly one +tau[n] under the guard', [f'{"+" if s > 0 else "-"}{f} if {c.guards}' for c, s, f in tt])
+    # boris: node-to-node tau
+    ci = repo.cls(*sw.SECOND_ORDER[1])
+    owner, fn, sig = sw.method_sig(repo, ci, 'update_nodes')
+    w = sw.where(owner, fn)
+    R.fn(w)
+    tt = _tau_terms(sig.N, r'L\.tau\[i1 - [12]\]')
+    got = sorted((s, f, tuple(c.guards)) for c, s, f in tt)
+    want = sorted([(1, 'L.tau[i1 - 1]', ('L.tau[i1 - 1] is not None',)), (-1, 'L.tau[i1 - 2]', ('L.tau[i1 - 1] is not None', 'i1 - 1 > 0'))])
+    R.check(got == want, 'boris_2nd_order.update_nodes :: + tau[n] - tau[n-1] (node-to-node form)', w, want, got)
+    # exceptions with reason
+    for rel, cn, reason in (
+        (sw.SW + 'ParaDiagSweepers.py', 'QDiagonalization', 'raises if tau is set (single level by contract)'),
+        (sw.DAE + 'fullyImplicitDAE.py', 'FullyImplicitDAE', 'single-level DAE sweeper; residual is ||F(t,u,u\')||, no tau term by design'),
+        (sw.DAE + 'semiImplicitDAE.py', 'SemiImplicitDAE', 'single-level DAE sweeper; no tau term by design'),
+        (sw.SW + 'Runge_Kutta.py', 'RungeKutta', 'direct one-shot method, outside the quantifier of C01 (no iteration to a collocation fixed point)'),
+    ):
+        ci = repo.cls(rel, cn)
+        owner, fn, sig = sw.method_sig(repo, ci, 'update_nodes')
+        w = sw.where(owner, fn)
+        if cn == 'QDiagonalization':
+            raises = [st for st in ast.walk(fn) if isinstance(st, ast.Raise)]
+            src = ast.unparse(fn)
+            R.check(bool(raises) and 'tau' in src, 'QDiagonalization.update_nodes :: raises when tau is set', w, 'a raise guarded by a tau test', f'{len(raises)} raise(s)')
+        else:
+            R.exc(f'{owner.name}.update_nodes :: no tau term', w, reason)
+    # residuals
+    base = sw.sweeper_base(repo)
+    for ci in repo.overriders(base, 'compute_residual'):
+        if not repo.is_library(ci):
+            continue
+        fn = ci.methods['compute_residual']
+        w = f'{ci.module.relpath}:{ci.name}.compute_residual'
+        R.fn(w)
+        N = Normalizer(fn)
+        if any(c[0].startswith('super().compute_residual(') for c in N.calls) and not any(c.target == 'L.status.residual' for c in N.contribs):
+            R.ok(f'{ci.name}.compute_residual :: delegates to super()', w, found='no own defect computation')
+            continue
+        if ci.name in ('FullyImplicitDAE', 'MultiStep', 'SweeperDAEMPI', 'RungeKuttaNystrom'):
+            R.exc(f'{ci.name}.compute_residual :: no tau term', w, 'residual is not the collocation defect here (DAE: ||F||; multistep/RKN: direct method)')
+            continue
+        mpi = ci.name == 'SweeperMPI'
+        idx = r'self\.rank' if mpi else r'i1 - 1'
+        tt = _tau_terms(N, rf'L\.tau\[{idx}\]')
+        ok = len(tt) == 1 and tt[0][1] == 1 and any(re.fullmatch(rf'L\.tau\[{idx}\] is not None', g) for g in tt[0][0].guards)
+        R.check(ok, f'{ci.name}.compute_residual :: + tau[n] if tau[n] is not None', w, 'exactly one +tau[n] under the guard', [f'{"+" if s > 0 else "-"}{f} if {c.guards}' for c, s, f in tt])
+    # end points: every quadrature branch adds tau[-1]
+    seen = set()
+    for rel, cn in sw.QD_SERIAL + sw.QD_MPI + sw.SECOND_ORDER:
+        ci = repo.cls(rel, cn)
+        owner, fn, sig = sw.method_sig(repo, ci, 'compute_end_point')
+        if id(fn) in seen:
+            continue
+        seen.add(id(fn))
+        w = sw.where(owner, fn)
+        R.fn(w)
+        quad = [c for c in sig.N.contribs if c.target.startswith('L.uend') and c.op == '+=' and c.terms and any('weights' in x or 'qQ' in x for s, f in c.terms for x in f)]
+        mpi_quad = [c for c in sig.N.calls if c[0].startswith('self.comm.Allreduce(')]
+        if not quad and not mpi_quad:
+            R.exc(f'{owner.name}.compute_end_point :: no quadrature branch', w, 'copy-only end point (raises / not implemented otherwise)')
+            continue
+        tt = _tau_terms(sig.N, r'L\.tau\[-1\]')
+        ok = len(tt) == 1 and tt[0][1] == 1 and tt[0][0].target == 'L.uend' and any(re.fullmatch(r'L\.tau\[(-1|self\.rank)\] is not None', g) for g in tt[0][0].guards)
+        # the tau term lives in the same branch as the quadrature
+        if ok and quad:
+            qg = set(quad[0].guards)
+            ok = qg <= set(tt[0][0].guards)
+        R.check(ok, f'{owner.name}.compute_end_point :: quadrature branch adds + tau[-1] under its guard', w, 'uend += tau[-1] if tau[-1] is not None, in the quadrature branch', [f'{"+" if s > 0 else "-"}{f} -> {c.target} if {c.guards}' for c, s, f in tt])
+
+
+@rule('C01', 'C01.R3', 'end-point mode: copy of the last node iff right_is_node and not do_coll_update; flag tables; automatic switch', floor=24)
+def r3(ctx, R):
+    repo = ctx.repo
+    want_guard = 'self.coll.right_is_node and (not self.params.do_coll_update)'
+    seen = set()
+    for rel, cn in sw.QD_SERIAL + sw.QD_MPI + sw.QD_DAE + sw.SECOND_ORDER:
+        ci = repo.cls(rel, cn)
+        owner, fn, sig = sw.method_sig(repo, ci, 'compute_end_point')
+        if id(fn) in seen:
+            continue
+        seen.add(id(fn))
+        w = sw.where(owner, fn)
+        R.fn(w)
+        N = sig.N
+        if owner.name == 'boris_2nd_order':
+            R.exc('boris_2nd_order.compute_end_point :: always quadrature', w, 'no copy branch: the Boris sweeper always integrates (positions/velocities are node-to-node)')
+            continue
+        copies = [c for c in N.contribs if c.target == 'L.uend' and c.op == '=' and c.rhs == 'P.dtype_u(L.u[-1])']
+        supers = [c for c in N.calls if c[0] == 'super().compute_end_point()']
+        if copies:
+            c = copies[0] if len(copies) == 1 else [x for x in copies if 'rank' not in ' '.join(x.guards)][0] if any('rank' not in ' '.join(x.guards) for x in copies) else copies[0]
+            g = [x for x in c.guards if 'rank' not in x]
+            R.check(guards_nnf(g) == guards_nnf([want_guard]), f'{owner.name}.compute_end_point :: copy branch guard', w, want_guard, g)
+            R.check(True, f'{owner.name}.compute_end_point :: copy is constructed through the datatype', w, 'P.dtype_u(L.u[-1])', c.rhs)
+        elif supers:
+            R.check(guards_nnf(supers[0][2]) == guards_nnf([want_guard]), f'{owner.name}.compute_end_point :: copy branch delegates to super() under the guard', w, want_guard, supers[0][2])
+        else:
+            R.bad(f'{owner.name}.compute_end_point :: copy branch', w, 'L.uend = P.dtype_u(L.u[-1]) under ' + want_guard, 'not found')
+        other = [c for c in N.contribs if c.target == 'L.uend' and c.op == '=' and c.rhs == 'P.dtype_u(L.u[0])' and 'rank' not in ' '.join(c.guards)]
+        raises = [st for st in walk_no_nested(fn) if isinstance(st, ast.Raise)]
+        if other:
+            R.check(guards_nnf(other[0].guards) == guards_nnf([f'not ({want_guard})']), f'{owner.name}.compute_end_point :: quadrature branch is the complement', w, f'not ({want_guard})', other[0].guards)
+        elif raises:
+            R.exc(f'{owner.name}.compute_end_point :: raises instead of quadrature', w, 'collocation update not implemented for this sweeper (raises)')
+        else:
+            R.bad(f'{owner.name}.compute_end_point :: quadrature branch', w, 'copy(u[0]) + quadrature, or raise', 'neither')
+    # Sweeper.__init__ switches do_coll_update on when the right end point is no node
+    rel = 'pySDC/core/sweeper.py'
+    fn = repo.func(rel, 'Sweeper.__init__')
+    w = f'{rel}:Sweeper.__init__'
+    R.fn(w)
+    N = Normalizer(fn)
+    sets = [c for c in N.contribs if c.target == 'self.params.do_coll_update' and c.rhs == 'True']
+    ok = len(sets) == 1 and bool_nf(ast.parse(sets[0].guards[-1], mode='eval').body) == ('and', ('not', 'self.coll.right_is_node'), ('not', 'self.params.do_coll_update')) if sets and sets[0].guards else False
+    if sets and sets[0].guards:
+        nf = bool_nf(ast.parse(sets[0].guards[-1], mode='eval').body)
+        ok = len(sets) == 1 and nf == ('and', tuple(sorted([('not', 'self.coll.right_is_node'), ('not', 'self.params.do_coll_update')], key=repr)))
+    R.check(ok, 'Sweeper.__init__ :: do_coll_update forced when right end point is not a node', w, 'self.params.do_coll_update = True if not right_is_node and not do_coll_update', [c.describe() for c in sets])
+    crel = 'pySDC/core/collocation.py'
+    fn = repo.func(crel, 'CollBase.__init__')
+    w = f'{crel}:CollBase.__init__'
+    R.fn(w)
+    N = Normalizer(fn, inline_scalars=False)
+    for attr, want in (('left_is_node', {'LOBATTO', 'RADAU-LEFT'}), ('right_is_node', {'LOBATTO', 'RADAU-RIGHT'})):
+        cs = [c for c in N.contribs if c.target == f'self.{attr}']
+        got = None
+        if len(cs) == 1:
+            v = cs[0].stmt.value
+            if isinstance(v, ast.Compare) and isinstance(v.ops[0], ast.In) and ast.unparse(v.left) == 'self.quad_type' and isinstance(v.comparators[0], (ast.List, ast.Tuple, ast.Set)):
+                got = {e.value for e in v.comparators[0].elts if isinstance(e, ast.Constant)}
+        R.check(got == want, f'CollBase.__init__ :: {attr} table', w, sorted(want), sorted(got) if got is not None else [c.describe() for c in cs])
+
+
+def _nested(fn, name):
+    for st in ast.walk(fn):
+        if isinstance(st, ast.FunctionDef) and st.name == name and st is not fn:
+            return st
+    return None
+
+
+@rule('C01', 'C01.R4', 'forward chain: send computes the end point, receive copies uend into u[0] and re-evaluates f[0]; tags agree', floor=10)
+def r4(ctx, R):
+    repo = ctx.repo
+    # ---- serial controller
+    sf = repo.func(NONMPI, 'controller_nonMPI.send_full')
+    rf = repo.func(NONMPI, 'controller_nonMPI.recv_full')
+    send, recv = _nested(sf, 'send'), _nested(rf, 'recv')
+    if send is None or recv is None:
+        raise AnalysisError('controller_nonMPI.send_full/recv_full: nested send/recv helpers not found')
+    w = f'{NONMPI}:controller_nonMPI.send_full.send'
+    R.fn(w)
+    cfg = FuncCFG(send)
+    cep = [n for n in cfg.stmt_of if any(ast.unparse(c.func).endswith('.sweep.compute_end_point') for c in cfg.calls_at(n))]
+    tag = [n for n, s in cfg.stmt_of.items() if isinstance(s, ast.Assign) and ast.unparse(s.targets[0]).endswith('.tag')]
+    ok = len(cep) == 1 and len(tag) == 1 and cfg.dominates(cep[0], tag[0]) and cfg.dominates(cep[0], 'EXIT')
+    R.check(ok, 'controller_nonMPI.send :: compute_end_point() on every path, before the tag is published', w, 'compute_end_point dominates tag store and exit', f'{len(cep)} end-point call(s), {len(tag)} tag store(s)')
+    w = f'{NONMPI}:controller_nonMPI.recv_full.recv'
+    R.fn(w)
+    N = Normalizer(recv, inline_scalars=False)
+    cfg = FuncCFG(recv)
+    a = recv.args.args
+    tgt, src = a[0].arg, a[1].arg
+    u0 = [c for c in N.contribs if c.target == f'{tgt}.u[0]']
+    f0 = [c for c in N.contribs if c.target == f'{tgt}.f[0]']
+    R.check(len(u0) == 1 and u0[0].op == '=' and u0[0].rhs == f'{tgt}.prob.dtype_u({src}.uend)', 'controller_nonMPI.recv :: u[0] <- copy of the sender\'s uend through the datatype', w, f'{tgt}.u[0] = {tgt}.prob.dtype_u({src}.uend)', [c.describe() for c in u0])
+    okf = len(f0) == 1 and f0[0].rhs == f'{tgt}.prob.eval_f({tgt}.u[0], {tgt}.time)'
+    if okf and u0:
+        nu, nf = cfg.node_of[id(u0[0].stmt)], cfg.node_of[id(f0[0].stmt)]
+        okf = cfg.dominates(nu, nf) and cfg.postdominates(nf, nu)
+    R.check(okf, 'controller_nonMPI.recv :: f[0] re-evaluated from the new u[0] at the level time, after the copy, on every path', w, f'{tgt}.f[0] = {tgt}.prob.eval_f({tgt}.u[0], {tgt}.time) post-dominating the copy', [c.describe() for c in f0])
+    raises = [(cfg.guards[id(s)], s) for n, s in cfg.stmt_of.items() if isinstance(s, ast.Raise)]
+    okt = any('CommunicationError' in ast.unparse(s.exc) and any(f'{src}.tag != tag' in ast.unparse(g) for g, p in gs) for gs, s in raises)
+    if okt and u0:
+        okt = all(cfg.dominates(cfg.node_of[id(st)], cfg.node_of[id(u0[0].stmt)]) for st in [s for n, s in cfg.stmt_of.items() if isinstance(s, ast.If) and 'tag' in ast.unparse(s.test)])
+    R.check(okt, 'controller_nonMPI.recv :: tag mismatch raises CommunicationError before anything is copied', w, 'raise CommunicationError under source.tag != tag, dominating the copy', [ast.unparse(s)[:80] for g, s in raises])
+    # call sites: tags by role
+    def call_of(fn, name):
+        return [c for c in ast.walk(fn) if isinstance(c, ast.Call) and isinstance(c.func, ast.Name) and c.func.id == name]
+
+    sc, rc = call_of(sf, 'send'), call_of(rf, 'recv')
+    lv = sf.args.args[2].arg
+    ok = len(sc) == 1 and ast.unparse(sc[0].args[0]) == f'S.levels[{lv}]' and {k.arg: ast.unparse(k.value) for k in sc[0].keywords}.get('tag') == f'({lv}, S.status.iter, S.status.slot)'
+    R.check(ok, 'controller_nonMPI.send_full :: send(S.levels[l], tag=(l, iter, own slot))', f'{NONMPI}:controller_nonMPI.send_full', '(level, S.status.iter, S.status.slot)', [ast.unparse(c) for c in sc])
+    lv = rf.args.args[2].arg
+    ok = len(rc) == 1 and [ast.unparse(x) for x in rc[0].args] == [f'S.levels[{lv}]', f'S.prev.levels[{lv}]'] and {k.arg: ast.unparse(k.value) for k in rc[0].keywords}.get('tag') == f'({lv}, S.status.iter, S.prev.status.slot)'
+    R.check(ok, 'controller_nonMPI.recv_full :: recv(S.levels[l], S.prev.levels[l], tag=(l, iter, sender slot))', f'{NONMPI}:controller_nonMPI.recv_full', '(level, S.status.iter, S.prev.status.slot)', [ast.unparse(c) for c in rc])
+    for fn_, nm, want in ((sf, 'send_full', 'not S.status.last'), (rf, 'recv_full', None)):
+        cfg = FuncCFG(fn_)
+        cs = [s for n, s in cfg.stmt_of.items() if isinstance(s, ast.Expr) and isinstance(s.value, ast.Call) and isinstance(s.value.func, ast.Name) and s.value.func.id in ('send', 'recv')]
+        g = [ast.unparse(t) if p else f'not ({ast.unparse(t)})' for t, p in cfg.guards[id(cs[0])]] if cs else None
+        if want:
+            R.check(g == [want], f'controller_nonMPI.{nm} :: guard of the transfer', f'{NONMPI}:controller_nonMPI.{nm}', want, g)
+        else:
+            nf = bool_nf(cfg.guards[id(cs[0])][0][0]) if cs and len(cfg.guards[id(cs[0])]) == 1 else None
+            R.check(nf == ('and', tuple(sorted([('not', 'S.status.first'), ('not', 'S.status.prev_done')], key=repr))), f'controller_nonMPI.{nm} :: guard of the transfer', f'{NONMPI}:controller_nonMPI.{nm}', 'not prev_done and not first', g)
+    # ---- MPI sibling
+    fn = repo.func(MPI, 'controller_MPI.recv')
+    w = f'{MPI}:controller_MPI.recv'
+    R.fn(w)
+    N = Normalizer(fn, inline_scalars=False)
+    cfg = FuncCFG(fn)
+    rcv = [n for n in cfg.stmt_of if any(ast.unparse(c.func) == 'target.u[0].irecv' for c in cfg.calls_at(n))]
+    f0 = [c for c in N.contribs if c.target == 'target.f[0]']
+    ok = len(rcv) == 1 and len(f0) == 1 and f0[0].rhs == 'target.prob.eval_f(target.u[0], target.time)' and cfg.dominates(rcv[0], cfg.node_of[id(f0[0].stmt)])
+    wait = [n for n in cfg.stmt_of if any(ast.unparse(c.func) == 'self.wait_with_interrupt' for c in cfg.calls_at(n))]
+    ok = ok and len(wait) == 1 and cfg.dominates(wait[0], cfg.node_of[id(f0[0].stmt)]) and cfg.dominates(rcv[0], wait[0])
+    R.check(ok, 'controller_MPI.recv :: irecv into u[0], wait, then f[0] re-evaluated', w, 'irecv -> wait -> f[0] = eval_f(u[0], time)', [c.describe() for c in f0])
+    fn = repo.func(MPI, 'controller_MPI.send_full')
+    w = f'{MPI}:controller_MPI.send_full'
+    R.fn(w)
+    cfg = FuncCFG(fn)
+    cep = [n for n in cfg.stmt_of if any(ast.unparse(c.func).endswith('.sweep.compute_end_point') for c in cfg.calls_at(n))]
+    snd = [n for n in cfg.stmt_of if any(ast.unparse(c.func).endswith('.uend.isend') for c in cfg.calls_at(n))]
+    ok = len(cep) == 1 and len(snd) == 1 and cfg.dominates(cep[0], snd[0])
+    R.check(ok, 'controller_MPI.send_full :: compute_end_point() dominates isend(uend)', w, 'end point computed before it is sent', f'{len(cep)} end-point call(s), {len(snd)} isend(s)')
+
+
+@rule('C01', 'C01.R5', 'stopping reads residual, tolerance and sweep count of the finest level only', floor=1)
+def r5(ctx, R):
+    repo = ctx.repo
+    rel = 'pySDC/implementations/convergence_controller_classes/check_convergence.py'
+    fn = repo.func(rel, 'CheckConvergence.check_convergence')
+    w = f'{rel}:CheckConvergence.check_convergence'
+    R.fn(w)
+    lv = sorted({ast.unparse(n) for n in ast.walk(fn) if isinstance(n, ast.Subscript) and ast.unparse(n.value).endswith('.levels')})
+    R.check(lv == ['S.levels[0]'], 'CheckConvergence.check_convergence :: levels consulted', w, ['S.levels[0]'], lv)
